@@ -1,1 +1,2 @@
 // shared helpers for physical-plan level checks
+pub mod evt;
